@@ -84,6 +84,7 @@ def run_path(body, args, corner=None):
     rec = {}
     LOG.append(rec)
     CUR['kinds'] = []
+    CUR['ended'] = False
     try:
         ok = body(rec, *args)
     except Exception as e:          # CrossHair's control-flow exceptions are BaseException: not caught
@@ -133,6 +134,7 @@ def make_list_lexer(names, value_of=None):
                 val = value_of[name] if value_of else name.lower()
                 yield Token(name, val, start_pos=k, line=1, column=k + 1, end_line=1, end_column=k + 2, end_pos=k + 1)
                 k += 1
+            CUR['ended'] = True
     return ListLexer
 
 
